@@ -2,6 +2,7 @@ package main
 
 import (
 	"go.uber.org/zap/verif/props/c03"
+	"go.uber.org/zap/verif/props/c04"
 	"go.uber.org/zap/verif/props/c05"
 	"go.uber.org/zap/verif/props/c06"
 	"go.uber.org/zap/verif/props/c07"
@@ -38,5 +39,6 @@ func init() {
 	register("C12", "fault_enumeration", c12.Run, c12.Child)
 	register("C06", "exploration", c06.Run, c06.Child)
 	register("C09", "exploration", c09.Run, c09.Child)
+	register("C04", "exploration", c04.Run, c04.Child)
 	register("C02", "exploration", encjson.Run02, nil)
 }
